@@ -84,7 +84,7 @@ fn main() {
     if args.len() < 2 {
         usage();
     }
-    let _saved_stderr = verif_rt::process::silence_stderr();
+    let _saved_stderr = if std::env::var("VERIF_KEEP_STDERR").is_ok() { -1 } else { verif_rt::process::silence_stderr() };
     // processes that execute simulated code keep their own output apart from what that code prints
     if matches!(args[1].as_str(), "--worker" | "--report" | "replay" | "selftest-determinism") {
         verif_rt::process::silence_stdout();
